@@ -33,9 +33,10 @@ RULE = ('case = (history of <=40 operations derived from a seed: dl/publish/remo
         'rm-behind-back/add-behind-back[genuine, junk content, zero length, known hash, junk names, loose names, '
         'directories]/bulk orphan files around the 500 batch boundary/quiesce/in-process restart/end[clean, stop-only, '
         'abrupt]; config save_blobs on/off; one crash point (kind, phase, n) or none) followed by two fresh-process '
-        'starts.  thorough additionally enumerates EVERY crash point (all kinds, phases, n) of each enumerated history.  '
-        'distinct = hash(history seed, length, profile, crash point); non-trivial = the first start had something to '
-        'reconcile (a genuine blob file without a `finished` row, or a `finished` row without file)')
+        'starts; 30% of the cases chain 2-3 such epochs on the same directory + database.  thorough additionally '
+        'enumerates EVERY crash point (all kinds, phases, n) of the last history of each enumerated case.  '
+        'distinct = hash(per epoch: history seed, length, profile, crash point); non-trivial = some first start had '
+        'something to reconcile (a genuine blob file without a `finished` row, or a `finished` row without file)')
 ASSUMPTIONS = [
     'process death is modelled by os._exit(137) (no power loss: the page cache survives), scratch data on tmpfs',
     'a blob file that MUST be recorded/reported = regular file, name of 96 chars 0-9a-f, non-empty, SHA-384 of content '
